@@ -174,3 +174,5 @@ _MG_LIB = HDR + "cnt = 0\ndef bump():\n    d4.Setting = cnt + 4\ndef getv():\n  
 _MG_UTIL = HDR + "cnt = 0\ndef bump():\n    d0.Setting = cnt + 6\n"
 _MG_B = HDR + "m1_cnt = 0\nm1_acc = 0\ndef m1_bump():\n    global m1_acc\n    d2.Setting = m1_cnt + 2\n    m1_acc = m1_acc + 1\n    d2.Setting = m1_acc + 2\ndef m1_getv():\n    m1_bump()\n    m1_bump()\n    return m1_cnt + 3\nlib_cnt = 0\nutil_cnt = 0\ncnt = 0\nacc = 0\nwhile True:\n    db.Setting = m1_getv()\n    yield_()\n"
 raw("FX-module-global-lifetime", "C13", {"A": {"": _MG_MAIN, "m1": _MG_M1, "lib": _MG_LIB, "util": _MG_UTIL}, "B": _MG_B, "opts": {}})
+raw("FX-D35-falsy-constant", "C09", {"kind": "program", "src": {"": HDR + "k = [0, 1][0]\nd1.Setting = k + 1\ndb.Setting = k\n"}, "opts": {}})
+raw("STRFOLD", "C08", {"src": {"": HDR + "db.Setting = STR('0') + 1\n"}, "opts": {}, "family": "strings"})
